@@ -211,4 +211,13 @@ def run(repo, tier):
     res.floor('DEADSTORE', 100)
     res.floor('L3', 8)
     res.floor('SCALE', 40)
+    from .common import apply_specs
+    BW = 'photutils.extern.biweight.'
+    apply_specs(repo, res, [
+        ('photutils.background.background_2d.Background2D._validate_array', 'rawstmt', 'array = np.asanyarray(array)',
+         'input arrays keep their subclass (a MaskedArray keeps its mask, which is merged into the mask later)'),
+        (BW + 'biweight_location', 'stmt', 'u = d / (c * mad)', 'deviations scaled by c * MAD (no substitute scale)'),
+        (BW + 'biweight_location', 'ret', 'M ||| M.squeeze(axis=axis) ||| value ||| where_func(mad.squeeze(axis=axis) == 0, M.squeeze(axis=axis), value) ||| M.squeeze(axis=axis) + sum_func(d * u, axis=axis) / sum_func(u, axis=axis)',
+         'the median where MAD == 0, the biweight location elsewhere'),
+    ])
     return res
